@@ -365,8 +365,13 @@ def main():
             except subprocess.TimeoutExpired:
                 rc, out = 124, 'harness timed out'
             if rc != 0 or not os.path.exists(summary_path):
-                violations.append(("harness run (%s build) ended abnormally rc=%s: %s" % (prof, rc, out[-300:]),
-                                   dict(input=None, observed="abnormal termination (abort, stack overflow or crash) rc=%s" % rc,
+                inflight = None
+                try:
+                    inflight = open(cases + '.inflight').read() or None
+                except OSError:
+                    pass
+                violations.append(("harness run (%s build) ended abnormally rc=%s while running: %s %s" % (prof, rc, inflight, out[-300:]),
+                                   dict(input=inflight, observed="abnormal termination (abort, stack overflow or crash) rc=%s" % rc,
                                         expected="normal termination", oracle="direct: harness completes")))
                 continue
             s = json.load(open(summary_path))
